@@ -81,6 +81,13 @@ static void pobs(int k, const char *ret) {
     fprintf(fout, "%s e%d d%zu u%zu t%d n%s %s c%ld%s", ret, (int)p->error_flags, binson_parser_get_depth(p),
             p->buffer_used, t, nm, v, ncb, obs_suffix ? obs_suffix : "\n");
 }
+/* print / to_string install an internal callback for the duration of the call; one that is still installed when the
+   call has returned would be invoked (with a dangling context) by every later call on this object - a carry-over (C12).
+   Reported in the observation; then removed so that the harness itself stays memory-safe. */
+static const char *cb_left(binson_parser *p) {
+    if (p->cb == NULL && p->cb_context == NULL) return "";
+    p->cb = NULL; p->cb_context = NULL; return " CBLEFT";
+}
 static void wobs(int k, int ret) {
     binson_writer *w = W[k].w;
     fprintf(fout, "%d e%d c%zu\n", ret, (int)w->error_flags, binson_writer_get_counter(w));
@@ -227,11 +234,11 @@ static void exec_line(const char *line_in) {
         if (dst) memset(dst, 0xAA, cap);
         int r = binson_parser_to_string(p, dst, &sz, chance(50));
         fprintf(fout, "%d z%zu m", r, sz); if (dst) memout(fout, (uint8_t *)dst, cap); else fputs("NULL", fout);
-        fprintf(fout, " e%d d%zu u%zu\n", (int)p->error_flags, binson_parser_get_depth(p), p->buffer_used);
+        fprintf(fout, " e%d d%zu u%zu%s\n", (int)p->error_flags, binson_parser_get_depth(p), p->buffer_used, cb_left(p));
         free(dst);
     } else if (!strcmp(op, "pr")) {
         NEEDP; int r; size_t n; uint8_t *b = capture_print(p, &r, &n);
-        fprintf(fout, "%d o", r); memout(fout, b, n); fprintf(fout, " e%d d%zu u%zu\n", (int)p->error_flags, binson_parser_get_depth(p), p->buffer_used); free(b);
+        fprintf(fout, "%d o", r); memout(fout, b, n); fprintf(fout, " e%d d%zu u%zu%s\n", (int)p->error_flags, binson_parser_get_depth(p), p->buffer_used, cb_left(p)); free(b);
     } else if (!strcmp(op, "W") && na >= 1) {
         free_w(k);
         int isnull = !strcmp(arg[0], "NULL"); size_t cap = isnull ? 0 : (size_t)strtoull(arg[0], NULL, 10);
